@@ -70,10 +70,9 @@ namespace gs
             }
         }
         Status feed(uint8_t c) override { return norm(r.newchar((char)c)); }
-        unsigned reinits_ = 0;
-        void reinit() override
+        void reinit(int variant) override
         {
-            if (reinits_++ & 1)
+            if (variant == 1)
                 r.setbuf(buf_, cap_);
             else
                 r.init(buf_, cap_);
